@@ -934,7 +934,7 @@ func c16PEndToEnd(r *h.Result, rng *h.Rng, ps []c16Profile) {
 	}
 }
 
-func c16PMergeStream(r *h.Result, rng *h.Rng, n, ne2e int, ops, impl *[]string, cases *[]any) {
+func c16PMergeStream(r *h.Result, rng *h.Rng, n, ne2e int, withCorpus bool, ops, impl *[]string, cases *[]any) {
 	base := func() c16PProfile {
 		return c16PProfile{Strings: []string{"", "samples", "count", "cpu", "nanoseconds", "main", "main.go"},
 			SampleTypes: []c16PVT{{1, 2}}, PeriodType: &c16PVT{3, 4},
@@ -973,8 +973,10 @@ func c16PMergeStream(r *h.Result, rng *h.Rng, n, ne2e int, ops, impl *[]string, 
 		{Profiles: []c16PProfile{noperiod}, WellFormed: false},
 		{},
 	}
-	for _, c := range corpus {
-		c16PMergeRun(r, c, ops, impl, cases)
+	if withCorpus {
+		for _, c := range corpus {
+			c16PMergeRun(r, c, ops, impl, cases)
+		}
 	}
 	for i := 0; i < n; i++ {
 		c := c16PGenCase(rng)
